@@ -88,13 +88,14 @@ SubInit(p) ==
    intr |-> FALSE,    \* eager: the current succession began by interrupting another key's dance (class marker only)
    clean |-> FALSE,   \* eager: the succession started sharp and every input since arrived alone between two ticks
                       \*   (then every dance in it starts sharp through `flow`, whatever the idle flag says)
+   newk |-> 0,        \* taps that joined the last group since the last tick
    due |-> 0,         \* index of a "macro" entry performed on the last tick: its marker appears on this one
    perf |-> {},       \* "macro" entries performed so far since the last quiet point (their further keys may be typed)
    gapIn |-> 0, lastIdle |-> TRUE, quiet |-> p.red + 1, err |-> ""]
 
 AddTap(m) == IF m.grp = <<>> \/ m.sepNext
-             THEN [m EXCEPT !.grp = Append(@, 1), !.sepNext = FALSE, !.taps = @ + 1]
-             ELSE [m EXCEPT !.grp[Len(m.grp)] = @ + 1, !.taps = @ + 1]
+             THEN [m EXCEPT !.grp = Append(@, 1), !.sepNext = FALSE, !.taps = @ + 1, !.newk = 1]
+             ELSE [m EXCEPT !.grp[Len(m.grp)] = @ + 1, !.taps = @ + 1, !.newk = @ + 1]
 RECURSIVE DropTo(_, _)
 DropTo(grp, j) == IF grp = <<>> THEN <<>> ELSE IF grp[1] >= j THEN grp ELSE DropTo(Tail(grp), j)
 RECURSIVE GSum(_)
@@ -114,6 +115,10 @@ Consume(m0, j) ==
   THEN <<TRUE, [m EXCEPT !.grp = IF m.grp[1] = 1 THEN Tail(@) ELSE [@ EXCEPT ![1] = @ - 1], !.taps = @ - 1]>>
   ELSE IF m.grp[1] < j THEN <<FALSE, m>>
   \* "the last one if N reaches the list length": a full-length run takes the whole group
+  \* (a macro's marker shows one tick after the action was performed: the taps typed since the last tick arrived after
+  \* the list was exhausted and belong to the next dance)
+  ELSE IF j = MaxTaps(p) /\ Lagged(p, j) /\ Len(m.grp) = 1 /\ OMin(m.newk, m.grp[1] - j) > 0
+  THEN LET keep == OMin(m.newk, m.grp[1] - j) IN <<TRUE, [m EXCEPT !.grp = <<keep>>, !.taps = keep]>>
   ELSE IF j = MaxTaps(p) THEN <<TRUE, [m EXCEPT !.grp = Tail(@), !.taps = @ - m.grp[1]]>>
   ELSE <<TRUE, [m EXCEPT !.grp = IF m.grp[1] = j THEN Tail(@) ELSE [@ EXCEPT ![1] = @ - j], !.taps = @ - j]>>
 
@@ -236,7 +241,7 @@ SubTick(m, out, idle, cb) ==
               THEN [m3 EXCEPT !.run = "none", !.cur = 0] ELSE m3
         m5 == IF m4.run = "held" /\ idle /\ m.lastIdle /\ m.gapIn = 0 THEN [m4 EXCEPT !.run = "none", !.cur = 0] ELSE m4
         m6 == [m5 EXCEPT !.el = OMin(T, p.T + 2), !.gapIn = 0, !.lastIdle = idle,
-                         !.due = IF m5.err = "" /\ laggedNow THEN expJ ELSE 0,
+                         !.due = IF m5.err = "" /\ laggedNow THEN expJ ELSE 0, !.newk = 0,
                          !.perf = IF idlePoint /\ out = <<>> THEN {} ELSE @,
                          !.quiet = IF out = <<>> THEN OMin(m5.quiet + 1, p.red + 1) ELSE 0]
     \* eager: once the timeout has passed the chain is over (the next tap starts a new dance whatever the position was)
